@@ -1,6 +1,11 @@
 import NmVerif.Proto
 import NmVerif.Arr
 import NmVerif.Index.Tile
+import NmVerif.Index.Repeat
+import NmVerif.Index.Roll
+import NmVerif.Index.Pad
+import NmVerif.Index.Take
+import NmVerif.Index.Concatenate
 namespace NmVerif.Driver.C04
 open NmVerif NmVerif.Proto NmVerif.Index
 
@@ -19,8 +24,70 @@ def fmtView (v : Option IxView) : String :=
       let data : List Int := offs.map (fun o => match o with | some k => (k : Int) | none => -1)
       s!"ok shape={fmtNats v.dst} data={fmtInts data}"
 
+/-- two operands: left filled `k`, right `k + 1000`; neither flag set ⇒ the C++ (NDEBUG) reads the right operand
+    at a zero-initialised index, i.e. element 1000 -/
+def fmtView2 (v : Option IxView2) : String :=
+  match v with
+  | none => "nothing"
+  | some v =>
+    let offs : List (Option Int) := (allIdx v.dst).map (fun d =>
+      match v.map d with
+      | some (false, i) => let k := computeOffset i (strides v.srcA) % 2^64
+                           if k < prod v.srcA then some (k : Int) else none
+      | some (true, i) => let k := computeOffset i (strides v.srcB) % 2^64
+                          if k < prod v.srcB then some ((k : Int) + 1000) else none
+      | none => if 0 < prod v.srcB then some 1000 else none)
+    if offs.any (·.isNone) then "oob"
+    else s!"ok shape={fmtNats v.dst} data={fmtInts (offs.map (·.getD 0))}"
+
+def bcast (shift : Int) (axes : List Int) : List Int := axes.map (fun _ => shift)
+
 def handle : Handler := fun op a =>
   match op with
+  | "repeat" => orBad do
+      let s ← a.nats "shape"
+      match a.get? "repeats" with
+      | some _ =>
+        let r ← a.nat "repeats"
+        let ax ← a.optInt "axis"
+        pure (fmtView (repeatView s r ax))
+      | none =>
+        let rs ← a.nats "rlist"
+        let ax ← a.int "axis"
+        pure (fmtView (repeatListView s rs ax))
+  | "roll" => orBad do
+      let s ← a.nats "shape"
+      match a.get? "axis", a.get? "alist", a.get? "slist" with
+      | some "None", _, _ => do
+        let sh ← a.int "shift"
+        pure (fmtView (rollNoneView s sh))
+      | some _, _, _ => do
+        let sh ← a.int "shift"
+        let ax ← a.int "axis"
+        pure (fmtView (rollView s sh ax))
+      | none, some _, none => do
+        let sh ← a.int "shift"
+        let axes ← a.ints "alist"
+        pure (fmtView (rollAxesView s (bcast sh axes) axes))
+      | none, some _, some _ => do
+        let shs ← a.ints "slist"
+        let axes ← a.ints "alist"
+        pure (fmtView (rollAxesView s shs axes))
+      | _, _, _ => none
+  | "pad" => orBad do
+      let s ← a.nats "shape"
+      let w ← a.nats "widths"
+      pure (fmtView (padView s w))
+  | "take" => orBad do
+      let s ← a.nats "shape"
+      let ind ← a.ints "indices"
+      let ax ← a.optInt "axis"
+      pure (fmtView (takeView s ind ax))
+  | "concatenate" => orBad do
+      let s ← a.nats "shape"
+      let s2 ← a.nats "shape2"
+      let ax ← a.optInt "axis"
+      pure (fmtView2 (concatenateView s s2 ax))
   | "tile" => orBad do
       let s ← a.nats "shape"
       let r ← a.nats "reps"
